@@ -191,6 +191,8 @@ def check_versions_rel(ctx, FB):
     def subsets(u):
         out = [[x] for x in u]
         out += [[a, b] for a, b in itertools.combinations(u, 2)]
+        if ctx.tier == "thorough":
+            out += [list(c) for c in itertools.combinations(u, 3)]
         return out
 
     av = f"{pre}::AllVersions"
